@@ -120,6 +120,9 @@ class Scratch:
         tlc.cleanup(self.d)
 
 
+_OW = [0]
+
+
 def do_write(obj, path, fmt, ow, opts, strict=False, pathlike=False):
     try:
         with warnings.catch_warnings():
@@ -127,7 +130,11 @@ def do_write(obj, path, fmt, ow, opts, strict=False, pathlike=False):
             if pathlike:
                 import pathlib
                 path = pathlib.Path(path)
-            obj.write(path, format=fmt, overwrite=ow, **opts)
+            _OW[0] += 1
+            if ow is False and _OW[0] % 2:
+                obj.write(path, format=fmt, **opts)          # overwrite not given at all: the default is "do not overwrite"
+            else:
+                obj.write(path, format=fmt, overwrite=ow, **opts)
         return 'ok'
     except OSError:
         return 'OSError'
